@@ -312,7 +312,16 @@ def _diff(what, ref, got, cfg, seed):
 def digests_for(configs):
     out = []
     for c in configs:
-        out.append(digest_of(run_plain(int(c["seed"]), c["cfg"], norm_cfg(c["cfg"]))))
+        seed = c["seed"]
+        if isinstance(seed, str):
+            # beyond the documented type (int) but accepted by random.Random deterministically; if a tree rejects such seeds
+            # that is not a reproducibility violation, so the rejection itself is the (stable) outcome
+            try:
+                out.append(digest_of(run_plain(seed, c["cfg"], norm_cfg(c["cfg"]))))
+            except (TypeError, ValueError) as e:
+                out.append("rejected:" + type(e).__name__)
+        else:
+            out.append(digest_of(run_plain(int(seed), c["cfg"], norm_cfg(c["cfg"]))))
     return out
 
 
@@ -351,6 +360,7 @@ def strategy(tier):
                                   "systems": kinds.map(lambda k: ["picker", "shuffler", "shuffler_both", "picker_both"] + k[:2]), "steps": st.integers(5, 12),
                                   "complete_at": st.sampled_from([None, None, 3])})
     one = wone_of(st.fixed_dictionaries({"seed": seeds, "cfg": cfg}), st.fixed_dictionaries({"seed": big, "cfg": rich}),
+                  st.fixed_dictionaries({"seed": st.sampled_from(["experiment-A", "", "run 7", "\u00e9"]), "cfg": rich}),
                   st.fixed_dictionaries({"seed": seeds, "cfg": rich}))
     hashs = st.fixed_dictionaries({"kind": st.just("hashseed"), "configs": st.lists(one, min_size=8, max_size=8),
                                    "hashseeds": st.lists(wone_of(st.sampled_from([1, 4242]), st.integers(2, 2 ** 32 - 1)), min_size=2, max_size=3)})
